@@ -230,6 +230,54 @@ def forEachCfg (n : Nat) (w : Int) (gp : Option Nat) (pan : Nat → Bool) : Cfg 
     mscript := fun i => if pan i then [.panic] else [],
     rscript := [.readAll], ctxCan := false, ctxPre := false, fixed := true }
 
+/-! ### the error VALUE classes (round 5)
+
+The property speaks of "an error that was passed to cancel (ErrCancelWithNil for nil)".  A Go `error` is an interface
+value: it is nil only if it holds no dynamic value at all.  A dynamic value that is the ZERO value of its type — an
+empty-struct sentinel, an int-coded error with code 0, an empty string-coded error, a typed nil pointer, a nil
+slice-typed error, a struct whose fields are all zero — is a non-nil error and must come back like any other.  The
+harness numbers the classes (`c<k>`); the model's error domain is the code itself (`Option Nat`, `none` = the nil
+interface), so "zero-valued" is a property of the code, invisible to `aeSet` (which tests `≠ none` only). -/
+
+/-- codes whose Go value is the zero value of its dynamic type (yet a non-nil error). -/
+def zeroValuedKinds : List Nat := [101, 102, 103, 104, 107, 108]
+
+/-- what `cancel` is called with for the token `c<k>`: `none` = the nil interface (k = 0), and k = 110 is
+`ErrCancelWithNil` itself handed in by the user — the same recorded value as for nil. -/
+def cancelArg (k : Nat) : Option Nat := if k = 0 ∨ k = 110 then none else some k
+
+/-- code 111 = `ErrReduceNoOutput` handed to cancel by the user: the returned VALUE is indistinguishable from the
+library's own "no output" result; code 112 wraps it (`errors.Is` sees through the wrapping, `==` does not). -/
+def sentinelKinds : List Nat := [111, 112]
+
+def errKindName (k : Nat) : String :=
+  if k = 0 then "nil" else if k < 100 then "struct-value"
+  else match k with
+    | 101 => "zero-struct" | 102 => "int-code-0" | 103 => "empty-string" | 104 => "typed-nil-pointer"
+    | 105 => "pointer" | 106 => "wrapped" | 107 => "nil-slice-uncomparable" | 108 => "struct-all-fields-zero"
+    | 109 => "context.Canceled-by-user" | 110 => "ErrCancelWithNil-by-user" | 111 => "ErrReduceNoOutput-by-user"
+    | 112 => "wraps-ErrReduceNoOutput" | _ => "other"
+
+/-- `AtomicError.Set` as the seeded "hardening" would have it (`err != nil && !reflect.ValueOf(err).IsZero()`):
+used only to show that the property fails for it (`Props5.isZero_variant_loses_the_error`). -/
+def aeSetIsZero (cur err : Option Nat) : Option Nat :=
+  match err with
+  | some k => if zeroValuedKinds.contains k then cur else some k
+  | none => cur
+
+/-- `MapReduceVoid`'s result for the error `MapReduce` returned, given whether that error is the one a cancel call
+recorded (`fromCancel`) or the caller's own "no output" decision: only the latter becomes nil.  The code before the
+round-5 fix tested `errors.Is(err, ErrReduceNoOutput)` alone (`voidReturnIs`): a cancel error that is / wraps the
+sentinel (codes 111, 112) was swallowed. -/
+def voidReturn2 (fromCancel : Bool) (err : Option Nat) : Option Nat :=
+  if fromCancel then err else voidReturn err
+
+/-- `errors.Is(err, ErrReduceNoOutput)` over codes. -/
+def isNoOutput (err : Option Nat) : Bool :=
+  err == some (encErr .noOutput) || err == some (encErr (.user 111)) || err == some (encErr (.user 112))
+
+def voidReturnIs (err : Option Nat) : Option Nat := if isNoOutput err then none else err
+
 /-! ### monitors over observations -/
 
 /-- peak number of mapper invocations running at once, from the start/end history
